@@ -28,3 +28,19 @@ pub assume_specification<T: Clone>[ <[T]>::to_vec ](s: &[T]) -> (r: Vec<T>)
         r@.len() == s@.len(),
         forall|k: int| 0 <= k < s@.len() ==> call_ensures(T::clone, (&s@[k],), #[trigger] r@[k]),
         lawful_clone::<T>() ==> r@ == s@;
+
+// ---- A-NUM: num_traits::Signed as used by the distance routines (uninterpreted, deterministic arithmetic) ----
+pub trait Signed: Sized + Sub<Output = Self> + Mul<Output = Self> {
+    spec fn zero_spec() -> Self;
+    fn zero() -> (r: Self) ensures r == Self::zero_spec();
+    spec fn abs_spec(&self) -> Self;
+    fn abs(&self) -> (r: Self) ensures r == self.abs_spec();
+}
+// the arithmetic of the element type follows its vstd operator specs and is defined for all operands
+// (for machine integers: a "no overflow" hypothesis; BigInt, wrapping and float types satisfy it outright)
+pub open spec fn arith_total<A: Signed + AddAssign>() -> bool {
+    &&& A::obeys_sub_spec() && A::obeys_mul_spec() && A::obeys_add_assign_spec()
+    &&& forall|a: A, b: A| #[trigger] a.sub_req(b)
+    &&& forall|a: A, b: A| #[trigger] a.mul_req(b)
+    &&& forall|a: A, b: A| #[trigger] a.add_assign_req(b)
+}
